@@ -562,10 +562,142 @@ def writer_facts(repo: Path):
             name_rule = ast.unparse(n.test) == "entity.name == base"
     if name_rule is None:
         raise Refuse("H5Writer.fetch_handle: the project-node shortcut `if entity.name == base: return base_handle` was not found")
+    scalar_chain, chain_line = scalar_branches(fns["write_attributes"])
+    # does a None value clear the attribute before the skip (`if value is None and key in handle.attrs: del handle.attrs[key]`)?
+    none_clears = False
+    for n in ast.walk(fns["write_attributes"]):
+        if isinstance(n, ast.If) and ast.unparse(n.test) == "value is None and key in entity_handle.attrs" \
+                and len(n.body) == 1 and ast.unparse(n.body[0]) == "del entity_handle.attrs[key]" and not n.orelse:
+            none_clears = True
+    writers = {n: writer_steps(fns[n]) for n in ("write_value_map", "write_color_map", "write_array_attribute", "write_data_values")}
     wd = ast.unparse(fns["write_data_values"])
     comments_wrap = "isinstance(entity, CommentsData)" in wd and "values = {'Comments': values}" in wd
     return {"dispatch": dispatch, "default": default, "skip_keys": skip, "fingerprint": fp, "concatenator_redirect": redirect,
-            "comments_wrap": comments_wrap, "name_rule": name_rule}
+            "comments_wrap": comments_wrap, "name_rule": name_rule, "scalar_chain": scalar_chain, "scalar_chain_line": chain_line,
+            "writers": writers, "none_clears": none_clears}
+
+
+TYPE_TAGS = {
+    "bool": ["TBool"], "np.bool_": ["TNpBool"], "np.int8": ["TNpInt8"], "np.integer": ["TNpInt8", "TNpInt"],
+    "np.int16": ["TNpInt"], "np.int32": ["TNpInt"], "np.int64": ["TNpInt"], "np.uint32": ["TNpInt"],
+    "int": ["TInt", "TBool"], "float": ["TFloat", "TNpFloat"], "np.floating": ["TNpFloat"], "np.float64": ["TNpFloat"],
+    "np.number": ["TNpInt8", "TNpInt", "TNpFloat"], "str": ["TStr"],
+}
+
+
+def scalar_branches(fn):
+    """the if/elif chain of write_attributes that picks the HDF5 encoding from the Python type of `value`:
+    -> ([[guard, action], ...], line).  Unknown guards/actions become GBadGuard/ABadAction (the table theorem fails)."""
+    chain = None
+    for n in ast.walk(fn):
+        if isinstance(n, ast.If) and "attrs.create" in ast.unparse(n) and "isinstance(value" in ast.unparse(n.test):
+            chain = n
+            break
+    if chain is None:
+        raise Refuse("write_attributes: the isinstance(value, ...) encoding chain was not found")
+
+    def guard(t):
+        src = ast.unparse(t)
+        if isinstance(t, ast.Call) and isinstance(t.func, ast.Name) and t.func.id == "isinstance" and ast.unparse(t.args[0]) == "value":
+            ts = t.args[1].elts if isinstance(t.args[1], ast.Tuple) else [t.args[1]]
+            tags = []
+            for x in ts:
+                nm = ast.unparse(x)
+                if nm not in TYPE_TAGS:
+                    return ["GBadGuard", src]
+                tags += TYPE_TAGS[nm]
+            return ["GIsinstance", sorted(set(tags))]
+        if src in ("key in entity_handle.attrs", "key in entity_handle.attrs.keys()"):
+            return ["GExists"]
+        return ["GBadGuard", src]
+
+    def action(body):
+        if len(body) != 1 or not isinstance(body[0], ast.Expr) or not isinstance(body[0].value, ast.Call):
+            return ["ABadAction", ast.unparse(body)[:80]]
+        src = ast.unparse(body[0].value)
+        if src == "entity_handle.attrs.create(key, int(value), dtype='int8')":
+            return ["ACreateInt8"]
+        if src == "entity_handle.attrs.create(key, value, dtype=cls.str_type)":
+            return ["ACreateStr"]
+        if src == "entity_handle.attrs.create(key, value, dtype=np.asarray(value).dtype)":
+            return ["ACreateNative"]
+        if src == "entity_handle.attrs.modify(key, value)":
+            return ["AModify"]
+        return ["ABadAction", src[:80]]
+
+    out = []
+    node = chain
+    while True:
+        out.append([guard(node.test), action(node.body)])
+        if len(node.orelse) == 1 and isinstance(node.orelse[0], ast.If):
+            node = node.orelse[0]
+            continue
+        if node.orelse:
+            out.append([["GElse"], action(node.orelse)])
+        break
+    return out, chain.lineno
+
+
+def writer_steps(fn):
+    """statement skeleton of a dataset writer: what is returned early, deleted, created, in source order"""
+    body = fn.body
+    for st in body:
+        if isinstance(st, ast.With):
+            body = st.body
+            break
+    steps = []
+
+    def has(node, pred):
+        return any(pred(n) for n in ast.walk(node))
+
+    def is_create(n):
+        return isinstance(n, ast.Call) and isinstance(n.func, ast.Attribute) and n.func.attr in ("create_dataset", "write_file_name_data")
+
+    for st in body:
+        src = ast.unparse(st)
+        if isinstance(st, ast.If):
+            test = ast.unparse(st.test)
+            rets = has(st, lambda n: isinstance(n, ast.Return))
+            creates = has(st, is_create)
+            dels = has(st, lambda n: isinstance(n, ast.Delete))
+            if rets and "_handle is None" in test and not creates and not dels:
+                steps.append(["WRetNoHandle", st.lineno])
+            elif rets and not creates and not dels and "is None" in src:
+                steps.append(["WRetIfNone", st.lineno])
+            elif dels and not creates and not rets:
+                steps.append(["WDelete", st.lineno])
+            elif creates and not rets and not dels:
+                # every branch of the chain creates -> unconditional; a lone `if ... is not None` -> conditional
+                node, all_create, has_else = st, True, False
+                while True:
+                    all_create = all_create and any(has(x, is_create) for x in node.body)
+                    if len(node.orelse) == 1 and isinstance(node.orelse[0], ast.If):
+                        node = node.orelse[0]
+                        continue
+                    if node.orelse:
+                        has_else = True
+                        all_create = all_create and any(has(x, is_create) for x in node.orelse)
+                    break
+                if all_create and has_else:
+                    steps.append(["WCreate", st.lineno])
+                elif not st.orelse and "is not None" in test:
+                    steps.append(["WCreateIfSome", st.lineno])
+                else:
+                    steps.append(["WBad", st.lineno])
+            elif rets or creates or dels:
+                steps.append(["WBad", st.lineno])
+        elif isinstance(st, ast.Try):
+            if has(st, lambda n: isinstance(n, ast.Delete)) and not has(st, is_create) and not has(st, lambda n: isinstance(n, ast.Return)):
+                steps.append(["WDelete", st.lineno])
+            elif has(st, is_create) or has(st, lambda n: isinstance(n, ast.Return)):
+                steps.append(["WBad", st.lineno])
+        elif isinstance(st, ast.Delete):
+            steps.append(["WBad", st.lineno])  # an unguarded del raises when nothing is stored yet
+        elif has(st, is_create):
+            steps.append(["WCreate", st.lineno])
+        elif has(st, lambda n: isinstance(n, ast.Return)):
+            steps.append(["WBad", st.lineno])
+    return steps
 
 
 def branch_routine(body, line):
@@ -996,6 +1128,7 @@ def extract(repo: Path):
         "classes": cls_rows,
         "dispatch": wf["dispatch"], "default_routine": wf["default"], "skip_keys": wf["skip_keys"],
         "key_map_labels": sorted(KEY_MAP), "update_attribute": ua, "name_rule": wf["name_rule"],
+        "scalar_chain": wf["scalar_chain"], "scalar_chain_line": wf["scalar_chain_line"], "writers": wf["writers"], "none_clears": wf["none_clears"],
         "out_of_scope": {**OUT_OF_SCOPE, **OUT_OF_SCOPE_QUAL}, "invariants": sorted(INVARIANT_TRUE),
     }
 
